@@ -124,9 +124,82 @@ def extract():
     n_calls = len(re.findall(r"guarded_xargs\(", code_only(tr_txt))) + len(re.findall(r"guarded_xargs\(", code_only(inc_txt)))
     if n_x != n_calls + 1:          # one literal `xargs` in the format string, the rest are calls of the helper (incl. its definition)
         raise ExtractError(f"`xargs` occurs {n_x} times in transfer.rs/incremental.rs but guarded_xargs( only {n_calls} times: a bare xargs command?")
+    # the remote command of a push (`transfer_file_to_remote`): ONE and-or list; split into its stages and connectives
+    fn = tr_txt[tr_txt.index("pub async fn transfer_file_to_remote"):]
+    fn = fn[:fn.index("\npub ", 10)] if "\npub " in fn[10:] else fn
+    touch = one(fn, r'let touch = mtime\.map_or\(String::new\(\), \|t\| \{?\s*format!\(\s*"((?:[^"\\]|\\.)*)"\s*\)\s*\}?\s*\);', "push: touch suffix")
+    cmd = one(fn, r'\.arg\(format!\(\s*"((?:[^"\\]|\\.)*)"\s*,?\s*\)\)', "push: remote command")
+    unesc = lambda x: bytes(x, "utf-8").decode("unicode_escape")
+    if cmd.count("{touch}") != 1 or not cmd.endswith("{touch}"):
+        raise ExtractError("push: the remote command no longer ends in {touch}")
+    c["pushStages"], c["pushConns"] = and_or_list(unesc(cmd.replace("{touch}", touch)))
     c["serveChunk"] = arith(one(read("src/bin/copia/serve.rs"), r"vec!\[0u8; ([0-9_\s\*]+)\]", "serve chunk"))
     c["pushChunk"] = arith(one(read("src/bin/copia/transfer.rs"), r"vec!\[0u8; ([0-9_\s\*]+)\]", "push chunk"))
     return c
+
+
+def and_or_list(cmd):
+    """split a shell and-or list at its top-level `&&` / `||`; anything else at top level that sequences or groups commands
+    (`;`, `|`, `&`, `{`, `(`, newline) is refused — the model (Model/Shell.lean) has and-or lists only"""
+    stages, conns, cur, i, conn = [], [], "", 0, 0
+    n = len(cmd)
+
+    def skip_quoted(i):
+        # returns the index after the quoted / substituted piece starting at i
+        if cmd.startswith("$'", i):
+            j = i + 2
+            while cmd[j] != "'":
+                j += 2 if cmd[j] == "\\" else 1
+            return j + 1
+        if cmd[i] == "'":
+            return cmd.index("'", i + 1) + 1
+        if cmd[i] == '"':
+            j = i + 1
+            while cmd[j] != '"':
+                if cmd[j] == "\\":
+                    j += 2
+                elif cmd.startswith("$(", j):
+                    j = skip_quoted(j)
+                else:
+                    j += 1
+            return j + 1
+        if cmd.startswith("$(", i):
+            depth, j = 1, i + 2
+            while depth:
+                if cmd[j] in "'\"" or cmd.startswith("$'", j) or cmd.startswith("$(", j):
+                    j = skip_quoted(j)
+                    continue
+                if cmd[j] == "(":
+                    depth += 1
+                elif cmd[j] == ")":
+                    depth -= 1
+                j += 1
+            return j
+        return None
+    try:
+        while i < n:
+            j = skip_quoted(i)
+            if j is not None:
+                cur += cmd[i:j]; i = j
+                continue
+            if cmd.startswith("&&", i) or cmd.startswith("||", i):
+                stages.append(cur.strip()); conns.append(conn)
+                conn = 1 if cmd[i] == "&" else 2
+                cur = ""; i += 2
+                continue
+            m_ = re.match(r"\{[a-z_]+\}", cmd[i:])
+            if m_:                                  # a format placeholder, not a shell brace group
+                cur += m_.group(0); i += len(m_.group(0))
+                continue
+            if cmd[i] in ";|&{}()\n`":
+                raise ExtractError(f"push: remote command is not a plain and-or list (top-level {cmd[i]!r})")
+            cur += cmd[i]; i += 1
+    except (IndexError, ValueError):
+        raise ExtractError("push: unbalanced quoting in the remote command")
+    stages.append(cur.strip()); conns.append(conn)
+    if any(not s_ for s_ in stages):
+        raise ExtractError("push: empty stage in the remote command")
+    return stages, conns
 
 
 def lean_str(s):
@@ -149,6 +222,8 @@ def render(c):
     L.append("def escapePairs : List (Nat × List Nat) := [" + ", ".join(f"({a}, {b})" for a, b in c["escapePairs"]) + "]")
     L.append(f"def stagingSuffix : String := {lean_str(c['stagingSuffix'])}")
     L.append(f"def guardedXargs : String := {lean_str(c['guardedXargs'])}")
+    L.append("def pushStages : List String := [" + ", ".join(lean_str(x) for x in c["pushStages"]) + "]")
+    L.append(f"def pushConns : List Nat := {c['pushConns']}")
     L.append("end Copia.Gen")
     return "\n".join(L) + "\n"
 
